@@ -198,8 +198,12 @@ func gen(tier string, r *lib.Rand, emit func(string)) {
 	}
 
 	// (a) every valid chain in every element order; plus, for a sample, the same with the 1 moved
+	var pool [][]*big.Int // chains for the storage-shape and history streams
 	allChains(maxlen, sampleFrom, num, den, r, func(c []int64) {
 		e(ints(c))
+		if len(c) >= 2 && (len(c) <= 6 || r.Chance(1, 12)) {
+			pool = append(pool, ints(c))
+		}
 		if len(c) >= 3 && r.Chance(1, 40) {
 			d := append([]int64{}, c...)
 			p := r.Range(1, len(d)-1)
@@ -218,6 +222,9 @@ func gen(tier string, r *lib.Rand, emit func(string)) {
 		}
 		c := sortedSet(set)
 		e(c)
+		if len(c) <= 60 && r.Chance(1, 3) {
+			pool = append(pool, c)
+		}
 		if len(c) <= maxunsorted { // the quadratic path of Ops costs the model O(k^3) per position
 			e(randomOrder(c, r))
 		}
@@ -250,6 +257,27 @@ func gen(tier string, r *lib.Rand, emit func(string)) {
 		}
 	}
 
+	// (e) storage shapes: the same chains held with spare capacity, as a prefix of a longer slice,
+	// and made of integers shared with a second chain; (f) call histories in one process: the same
+	// input object twice, equal chains, a related chain in between, an invalid chain first
+	if tier != "thorough" && len(pool) > 700 {
+		pool = pool[:700]
+	}
+	for i, c := range pool {
+		m.emitShapes(c, r, emit)
+		other := pool[r.Intn(len(pool))]
+		if r.Chance(1, 2) && len(c) <= 110 {
+			other = randomOrder(c, r)
+		}
+		bad := lib.CloneInts(c)
+		p := r.Range(0, len(bad)-1)
+		bad[p].Add(bad[p], big.NewInt(int64(r.Range(1, 3))))
+		if i%3 == 0 {
+			bad = []*big.Int{}
+		}
+		m.emitHistories(c, other, bad, r, emit)
+	}
+
 	// (b') chains emitted by the search algorithms, taken before the optimisation wrapper
 	as := ensemble.Ensemble()
 	for _, nb := range bits {
@@ -267,37 +295,9 @@ func gen(tier string, r *lib.Rand, emit func(string)) {
 	}
 }
 
-func run(c string) string {
-	f := strings.Split(c, " ")
-	in := addchain.Chain(lib.ParseHexList(f[1]))
-	out, err := opt.Optimize(in)
-	if err != nil {
-		return "err other"
-	}
-	return "ok " + lib.HexList(out)
-}
-
-func oracle(c, res string) string {
-	f := strings.Split(c, " ")
-	in := lib.ParseHexList(f[1])
-	keep := lib.CloneInts(in)
-	arg := addchain.Chain(lib.CloneInts(in))
-	ptrs := append([]*big.Int{}, arg...)
-	out, err := opt.Optimize(arg)
-	// the input chain is not modified (neither the slice nor the integers it points to)
-	if len(arg) != len(keep) {
-		return "input length changed"
-	}
-	for i := range arg {
-		if arg[i] != ptrs[i] || arg[i].Cmp(keep[i]) != 0 {
-			return fmt.Sprintf("input chain modified at position %d", i)
-		}
-	}
+func judge(in, out []*big.Int, err error) string {
 	if err != nil {
 		return "Optimize returned an error: " + err.Error()
-	}
-	if got := "ok " + lib.HexList(out); got != res {
-		return "second call gave a different result: " + got
 	}
 	// for every input (valid or not): only removals, never of the first or the last element
 	if !isSubsequence(out, in) {
@@ -326,14 +326,26 @@ func oracle(c, res string) string {
 	return ""
 }
 
+var m = impl{
+	plainFn: "optimize", shapeFn: "optshape", histFn: "opthist",
+	call: func(in addchain.Chain) (addchain.Chain, error) { return opt.Optimize(in) },
+	line: func(out []*big.Int, err error) string {
+		if err != nil {
+			return "err other"
+		}
+		return "ok " + lib.HexList(out)
+	},
+	judge:       judge,
+	sharesElems: true, // Optimize returns the input's own *big.Int objects for the elements it keeps
+}
+
 func nontrivial(c, res string) bool {
-	f := strings.Split(c, " ")
-	in := lib.ParseHexList(f[1])
+	in := m.subject(c)
 	return len(in) >= 3 && isChain(in) && strings.HasPrefix(res, "ok ")
 }
 
 func main() {
-	lib.Main(lib.Prop{ID: "C10", Gen: gen, Run: run, Oracle: oracle, Nontrivial: nontrivial,
+	lib.Main(lib.Prop{ID: "C10", Gen: gen, Run: m.run, Oracle: m.oracle, Nontrivial: nontrivial, Neighbours: m.neighbours,
 		PanicClass: func(v interface{}) string {
 			if strings.Contains(fmt.Sprint(v), "index out of range") {
 				return "index"
